@@ -199,5 +199,8 @@ func (f *Subseq) getArgs(s *slip.Scope, args slip.List, depth int) (start, end i
 	default:
 		slip.TypePanic(s, depth, "sequence", ta, "sequence")
 	}
+	if end < start {
+		slip.ErrorPanic(s, depth, "end %d is before start %d", end, start)
+	}
 	return
 }
